@@ -19,8 +19,9 @@ ASSUMPTIONS = [
     "pyfaidx is trusted for FASTA access",
 ]
 
-RECORDS = {"chrA": "ACGTTGCAAGCT", "chrB": "GGATCCNAT"}
-COMP = {"A": "T", "C": "G", "G": "C", "T": "A", "N": "N"}
+RECORDS = {"chrA": "ACGTTGCAAGCT", "chrB": "GRYKMCNBD"}        # chrB carries IUPAC ambiguity codes
+COMP = {"A": "T", "C": "G", "G": "C", "T": "A", "N": "N", "R": "Y", "Y": "R", "K": "M", "M": "K", "B": "V", "V": "B",
+        "D": "H", "H": "D", "S": "S", "W": "W"}
 
 
 def exon_sets(npos):
@@ -67,7 +68,7 @@ def body_seq(ch, ctx):
     e = ch.choose("end", range(s, len(RECORDS[rec]) + 1))
     strand = ch.choose("strand", "+-.")
     use_strand = ch.choose("use_strand", (True, False))
-    as_path = ch.choose("fasta", ("object", "path", "path_rewritten"))
+    as_path = ch.choose("fasta", ("object", "path", "path_rewritten", "path_stale_index"))
     path, fa = get_fasta(ctx)
     if as_path == "path_rewritten":
         # the same path held another reference a moment ago (regenerated reference at a fixed location)
@@ -77,6 +78,15 @@ def body_seq(ch, ctx):
         for n in os.listdir(d):
             os.unlink(os.path.join(d, n))
         path = dbutil.write_text(d, "regen.fa", "".join(">%s\n%s\n%s\n" % (k, v[:7], v[7:]) for k, v in RECORDS.items()))
+    if as_path == "path_stale_index":
+        # an index file left over from an older release of the same FASTA sits next to it
+        d = ctx.fresh_dir()
+        path = dbutil.write_text(d, "rel.fa", "".join(">%s\n%s\n" % (k, (v * 2)[3:3 + len(v)]) for k, v in RECORDS.items()))
+        gffutils.Feature(seqid=rec, start=1, end=2, strand="+").sequence(path)           # writes rel.fa.fai
+        dbutil.write_text(d, "rel.fa", "".join(">%s\n%s\n%s\n" % (k, v[:7], v[7:]) for k, v in RECORDS.items()))
+        now = __import__("time").time()
+        os.utime(path + ".fai", (now - 1000, now - 1000))
+        os.utime(path, (now, now))
     as_path = as_path != "object"
     f = gffutils.Feature(seqid=rec, start=s, end=e, strand=strand)
     exp = RECORDS[rec][s - 1:e]
@@ -98,11 +108,18 @@ def body_bed(ch, ctx):
     span = ch.choose("span", ("hull", "left", "right"))
     strand = ch.choose("strand", "+-")
     cds_opt = ch.choose("cds", ("none", "first", "first_last", "inner", "first_last_desc"))
-    name_field = ch.choose("name_field", ("ID", "Name"))
-    byid = ch.choose("argument", ("id", "feature"))
-    mode = ch.choose("mode", ("thick", "thin"))
-    switch = ch.choose("always_return_list", (True, False))
-    off = 100
+    if ctx.tier == "quick":
+        # quick: a pairwise-covering set of the five two-valued options instead of their full product
+        name_field, byid, mode, off, switch = ch.choose("options", [
+            ("ID", "id", "thick", 100, True), ("Name", "feature", "thin", 100, True), ("ID", "feature", "thick", 0, True),
+            ("Name", "id", "thick", 100, False), ("ID", "id", "thin", 0, False), ("Name", "feature", "thick", 0, False),
+            ("ID", "feature", "thin", 100, False), ("Name", "id", "thin", 0, True)])
+    else:
+        name_field = ch.choose("name_field", ("ID", "Name"))
+        byid = ch.choose("argument", ("id", "feature"))
+        mode = ch.choose("mode", ("thick", "thin"))
+        switch = ch.choose("always_return_list", (True, False))
+        off = ch.choose("offset", (100, 0))           # with offset 0 the transcript can begin at coordinate 1
     if exons:
         s, e = exons[0][0] + off, exons[-1][1] + off
     else:
